@@ -117,6 +117,8 @@ package executors
 //@   loop 1 iteration-ensures [batch-executed-once] commandedNow ==> calls(pe.executeTasks, ret(on("recv", pe.commander))) == 1 && calls(executeTasks) == 1 && pe.inflight == at_head(pe.inflight) - 1
 //@   loop 1 iteration-ensures [tick-executes-nothing-itself] !commandedNow ==> calls(enterExecution) == 0 && calls("send") == 0 && calls(executeTasks) == 0 && pe.inflight == at_head(pe.inflight)
 //@   ensures [quits-only-when-idle] calls(shallQuit) == 1 && ret(shallQuit) && calls(executeTasks) == 0
+// every (re)started flusher ticks on a ticker of its own, created when it starts and stopped when it retires
+//@   ensures [ticker-created-by-this-flusher] calls(pe.newTicker, pe.interval) == 1 && calls(ret(pe.newTicker).Stop) == 1
 //@   ensures [final-flush-and-ticker-stopped] calls(pe.Flush) == 2 && calls(Stop) == 1
 
 // Registration of an execution happens inside the barrier that Wait also passes through, so a Wait either sees the
